@@ -494,8 +494,51 @@ let run_obj_unmarshal (payload : string) : string =
        | M.UTFuel -> "fuel")
   | _ -> failwith "bad obj-unmarshal payload"
 
+(* roundtrip: "<c|j> <line> <indent> <oracle> ; <env> <atlas> <type> <value>" *)
+let encode_tokens (fmt : string) (line, indent, oracle) (toks : M.token list) : M.z list option =
+  if fmt = "c" then
+    (match M.enc_tokens toks with
+     | M.Finished (chunks, n) when int_of_nat n = List.length toks -> Some (List.concat chunks)
+     | _ -> None)
+  else
+    let o = { M.jline = line; M.jindent = (match indent with Some b -> b | None -> []) } in
+    (match M.jenc_tokens (make_shortest oracle) o toks with
+     | M.JFinished (chunks, n) when int_of_nat n = List.length toks -> Some (List.concat chunks)
+     | _ -> None)
+
+let decode_tokens (fmt : string) (bs : M.z list) : M.token list option =
+  if fmt = "c" then
+    (match M.dec_run false bs with M.DOk (toks, _, _) -> Some toks | _ -> None)
+  else
+    (match M.jdec_run bs with M.JDOk (toks, _) -> Some toks | _ -> None)
+
+let run_roundtrip (payload : string) : string =
+  let i = String.index payload ';' in
+  let head = String.sub payload 0 i and rest = String.sub payload (i + 1) (String.length payload - i - 1) in
+  let fmt, opts = match split_ws head with
+    | [f; l; ind; o] -> (f, (opt_bytes l, opt_bytes ind, o)) | _ -> failwith "bad roundtrip head" in
+  match parse_sx rest with
+  | [e; a; t; v] ->
+      let env = env_of e and atl = atlas_of a and ty = gtype_of t in
+      (match M.marshal_top env atl ty (gval_of v) with
+       | M.MOk toks ->
+           (match encode_tokens fmt opts toks with
+            | None -> "merr"
+            | Some bs ->
+                (match decode_tokens fmt bs with
+                 | None -> "uerr " ^ hex_or_dash bs
+                 | Some toks2 ->
+                     (match M.unmarshal_top env atl ty toks2 with
+                      | M.UTDone (n, x) when int_of_nat n = List.length toks2 ->
+                          Printf.sprintf "ok %s %s" (hex_or_dash bs) (print_gval x)
+                      | _ -> "uerr " ^ hex_or_dash bs)))
+       | M.MErr _ -> "merr"
+       | M.MFuel -> "fuel")
+  | _ -> failwith "bad roundtrip payload"
+
 let dispatch (suite : string) (payload : string) : string =
   match suite with
+  | "roundtrip" -> run_roundtrip payload
   | "obj-marshal" -> run_obj_marshal payload
   | "obj-unmarshal" -> run_obj_unmarshal payload
   | "transcode" -> run_transcode payload
